@@ -1,16 +1,18 @@
 import GrinVerif.Drv.Common
 import GrinVerif.Model.SerBlock
+import GrinVerif.Model.SerMsg
 /-! Driver glue for the `ser` domain (line protocol handler).
 
     ser const <name>                                   => <value>
     ser prim <u8|u16|u32|u64|i64|bytes|fixed:N|empty:N|expect:N> <hex> => ok <value> <consumed> | err <E>
     ser dec <Type> <ver> <nrd 0|1> <chain A|M> <hex>   => ok <consumed> <enc@1> <enc@2> <enc@3> <hash|none> | err <E>
     ser enc <Type> <ver> <chain A|M> <value tokens…>   => <enc|E:err> <hash|none>
+    ser hdr <chain A|M> <hex>                          => known <type> <len> <consumed> | unknown <type> <len> <consumed> | err <E>
 
 `enc@v` is the model's re-encoding of the decoded value at protocol version v (`E:<err>` when the
 writer refuses), `hash` the blake2b-256 of the hash-mode bytes for types that have a hash. -/
 namespace GV.Drv.SerD
-open GV GV.Drv GV.Ser
+open GV GV.Drv GV.Ser GV.SerSeg GV.SerMsg
 
 structure St where
   dummy : Unit := ()
@@ -188,6 +190,108 @@ def tTip : TokP Tip := fun ts => do
   let (d, ts) ← tNat ts
   pure ({ height := h, lastBlockH := l, prevBlockH := p, totalDifficulty := d }, ts)
 
+/-! ### segments and p2p messages (`Model/SerSeg.lean`, `Model/SerMsg.lean`) -/
+
+def tSegId : TokP SegId := fun ts => do
+  let (h, ts) ← tNat ts
+  let (i, ts) ← tNat ts
+  pure ({ height := h, idx := i }, ts)
+
+/-- `<h> <idx> [hashPos] <n> hash… [leafPos] <n> item… <n> proofHash…` -/
+def tSegment {α : Type} (p : TokP α) : TokP (Segment α) := fun ts => do
+  let (id, ts) ← tSegId ts
+  let (hp, ts) ← tNatList ts
+  let (hs, ts) ← tCounted tHex ts
+  let (lp, ts) ← tNatList ts
+  let (ld, ts) ← tCounted p ts
+  let (pf, ts) ← tCounted tHex ts
+  pure ({ id := id, hashPos := hp, hashes := hs, leafPos := lp, leafData := ld, proof := pf }, ts)
+
+/-- `<nChunks> <hex of BitVec::to_bytes()>` -/
+def tBitmapBlock : TokP BitmapBlock := fun ts => do
+  let (n, ts) ← tNat ts
+  let (b, ts) ← tHex ts
+  pure ({ nChunks := n, v := ofBE b }, ts)
+
+def tBitmapSegment : TokP BitmapSegment := fun ts => do
+  let (id, ts) ← tSegId ts
+  let (bl, ts) ← tCounted tBitmapBlock ts
+  let (pf, ts) ← tCounted tHex ts
+  pure ({ id := id, blocks := bl, proof := pf }, ts)
+
+def tPeerAddr : TokP PeerAddr
+  | "4" :: ts => do let (ip, ts) ← tHex ts; let (p, ts) ← tNat ts; pure (.v4 ip p, ts)
+  | "6" :: ts => do
+    let (sg, ts) ← tNatList ts
+    let (p, ts) ← tNat ts
+    let (f, ts) ← tNat ts
+    let (sc, ts) ← tNat ts
+    pure (.v6 sg p f sc, ts)
+  | _ => none
+
+def tHand : TokP Hand := fun ts => do
+  let (version, ts) ← tNat ts
+  let (caps, ts) ← tNat ts
+  let (nonce, ts) ← tNat ts
+  let (genesis, ts) ← tHex ts
+  let (td, ts) ← tNat ts
+  let (sa, ts) ← tPeerAddr ts
+  let (ra, ts) ← tPeerAddr ts
+  let (ua, ts) ← tHex ts
+  pure ({ version := version, capabilities := caps, nonce := nonce, genesis := genesis,
+          totalDifficulty := td, senderAddr := sa, receiverAddr := ra, userAgent := ua }, ts)
+
+def tShake : TokP Shake := fun ts => do
+  let (version, ts) ← tNat ts
+  let (caps, ts) ← tNat ts
+  let (genesis, ts) ← tHex ts
+  let (td, ts) ← tNat ts
+  let (ua, ts) ← tHex ts
+  pure ({ version := version, capabilities := caps, genesis := genesis, totalDifficulty := td,
+          userAgent := ua }, ts)
+
+def tPingPong : TokP PingPong := fun ts => do
+  let (td, ts) ← tNat ts
+  let (h, ts) ← tNat ts
+  pure ({ totalDifficulty := td, height := h }, ts)
+
+def tPeerError : TokP PeerError := fun ts => do
+  let (c, ts) ← tNat ts
+  let (m, ts) ← tHex ts
+  pure ({ code := c, message := m }, ts)
+
+def tTxHashSetRequest : TokP TxHashSetRequest := fun ts => do
+  let (h, ts) ← tHex ts
+  let (n, ts) ← tNat ts
+  pure ({ hash := h, height := n }, ts)
+
+def tTxHashSetArchive : TokP TxHashSetArchive := fun ts => do
+  let (h, ts) ← tHex ts
+  let (n, ts) ← tNat ts
+  let (b, ts) ← tNat ts
+  pure ({ hash := h, height := n, bytes := b }, ts)
+
+def tSegmentRequest : TokP SegmentRequest := fun ts => do
+  let (h, ts) ← tHex ts
+  let (id, ts) ← tSegId ts
+  pure ({ blockHash := h, id := id }, ts)
+
+def tSegmentResponse {α : Type} (p : TokP α) : TokP (SegmentResponse α) := fun ts => do
+  let (h, ts) ← tHex ts
+  let (s, ts) ← tSegment p ts
+  pure ({ blockHash := h, segment := s }, ts)
+
+def tOutputSegmentResponse : TokP OutputSegmentResponse := fun ts => do
+  let (r, ts) ← tSegmentResponse tOutputId ts
+  let (h, ts) ← tHex ts
+  pure ({ response := r, outputBitmapRoot := h }, ts)
+
+def tOutputBitmapSegmentResponse : TokP OutputBitmapSegmentResponse := fun ts => do
+  let (h, ts) ← tHex ts
+  let (s, ts) ← tBitmapSegment ts
+  let (o, ts) ← tHex ts
+  pure ({ blockHash := h, segment := s, outputRoot := o }, ts)
+
 /-! ### the codec table -/
 
 def okE (b : Bytes) : Except SerErr Bytes := .ok b
@@ -251,6 +355,58 @@ def cTip : Codec Tip :=
   { dec := fun _ => decTip, enc := fun _ _ x => okE (encTip x),
     hashB := fun _ _ => none, parse := tTip }
 
+/-- a codec without version dependence and without identity hash -/
+def plain {α : Type} (dec : Parser α) (enc : α → Bytes) (parse : TokP α) : Codec α :=
+  { dec := fun _ => dec, enc := fun _ _ x => okE (enc x), hashB := fun _ _ => none, parse := parse }
+
+def cSegId : Codec SegId := plain decSegId encSegId tSegId
+def cSegProof : Codec (List Bytes) := plain decSegProof encSegProof (tCounted tHex)
+def cOutputSegment : Codec (Segment OutputId) :=
+  plain (decSegment decOutputId) (encSegment encOutputId) (tSegment tOutputId)
+def cRangeProofSegment : Codec (Segment RangeProof) :=
+  plain (decSegment decRangeProof) (encSegment encRangeProof) (tSegment tRangeProof)
+def cKernelSegment : Codec (Segment TxKernel) :=
+  { dec := fun c => decSegment (decTxKernel c), enc := fun _ v x => okE (encSegment (encTxKernel v .full) x),
+    hashB := fun _ _ => none, parse := tSegment tTxKernel }
+def cBitmapSegment : Codec BitmapSegment := plain decBitmapSegment encBitmapSegment tBitmapSegment
+def cPeerAddr : Codec PeerAddr := plain decPeerAddr encPeerAddr tPeerAddr
+def cHand : Codec Hand := plain decHand encHand tHand
+def cShake : Codec Shake := plain decShake encShake tShake
+def cPingPong : Codec PingPong := plain decPingPong encPingPong tPingPong
+def cGetPeerAddrs : Codec Nat := plain decGetPeerAddrs encGetPeerAddrs tNat
+def cPeerAddrs : Codec (List PeerAddr) := plain decPeerAddrs encPeerAddrs (tCounted tPeerAddr)
+def cPeerError : Codec PeerError := plain decPeerError encPeerError tPeerError
+def cLocator : Codec (List Bytes) := plain decLocator encLocator (tCounted tHex)
+def cBanReason : Codec Nat := plain decBanReason encBanReason tNat
+def cTxHashSetRequest : Codec TxHashSetRequest := plain decTxHashSetRequest encTxHashSetRequest tTxHashSetRequest
+def cTxHashSetArchive : Codec TxHashSetArchive := plain decTxHashSetArchive encTxHashSetArchive tTxHashSetArchive
+def cSegmentRequest : Codec SegmentRequest := plain decSegmentRequest encSegmentRequest tSegmentRequest
+def cRangeProofSegmentResponse : Codec (SegmentResponse RangeProof) :=
+  plain (decSegmentResponse decRangeProof) (encSegmentResponse encRangeProof) (tSegmentResponse tRangeProof)
+def cKernelSegmentResponse : Codec (SegmentResponse TxKernel) :=
+  { dec := fun c => decSegmentResponse (decTxKernel c),
+    enc := fun _ v x => okE (encSegmentResponse (encTxKernel v .full) x),
+    hashB := fun _ _ => none, parse := tSegmentResponse tTxKernel }
+def cOutputSegmentResponse : Codec OutputSegmentResponse :=
+  plain decOutputSegmentResponse encOutputSegmentResponse tOutputSegmentResponse
+def cOutputBitmapSegmentResponse : Codec OutputBitmapSegmentResponse :=
+  plain decOutputBitmapSegmentResponse encOutputBitmapSegmentResponse tOutputBitmapSegmentResponse
+/-- `Headers` has a writer only (`dec` refuses everything; no `dec` line is ever printed for it) -/
+def cHeaders : Codec (List BlockHeader) :=
+  { dec := fun _ _ => .error .corrupted,
+    enc := fun c _ x => okE (encHeaders (encBlockHeader c.proofSize .full) x),
+    hashB := fun _ _ => none, parse := tCounted tBlockHeader }
+/-- `MsgHeader` as a writer (`enc` line: `<type> <len>`); reading is the `hdr` op -/
+def cMsgHeader (net : NetCfg) : Codec (Nat × Nat) :=
+  { dec := fun _ _ => .error .corrupted,
+    enc := fun _ _ x => okE (encMsgHeader net x.1 x.2),
+    hashB := fun _ _ => none,
+    parse := fun ts => do let (t, ts) ← tNat ts; let (l, ts) ← tNat ts; pure ((t, l), ts) }
+
+def netOf (chain : String) : NetCfg :=
+  if chain == "M" then { magic := GV.Gen.Msg.MAINNET_MAGIC, mbw := GV.Gen.MAX_BLOCK_WEIGHT }
+  else { magic := GV.Gen.Msg.OTHER_MAGIC, mbw := GV.Gen.TESTING_MAX_BLOCK_WEIGHT }
+
 /-- dispatch on the type name; `k` receives the codec -/
 def withCodec (ty : String) (k : {α : Type} → Codec α → Option String) : Option String :=
   match ty with
@@ -272,6 +428,32 @@ def withCodec (ty : String) (k : {α : Type} → Codec α → Option String) : O
   | "ShortId" => k cShortId
   | "CompactBlock" => k cCompactBlock
   | "Tip" => k cTip
+  | "SegmentIdentifier" => k cSegId
+  | "SegmentProof" => k cSegProof
+  | "OutputSegment" => k cOutputSegment
+  | "RangeProofSegment" => k cRangeProofSegment
+  | "KernelSegment" => k cKernelSegment
+  | "BitmapSegment" => k cBitmapSegment
+  | "PeerAddr" => k cPeerAddr
+  | "Hand" => k cHand
+  | "Shake" => k cShake
+  | "Ping" => k cPingPong
+  | "Pong" => k cPingPong
+  | "GetPeerAddrs" => k cGetPeerAddrs
+  | "PeerAddrs" => k cPeerAddrs
+  | "PeerError" => k cPeerError
+  | "Locator" => k cLocator
+  | "BanReason" => k cBanReason
+  | "TxHashSetRequest" => k cTxHashSetRequest
+  | "TxHashSetArchive" => k cTxHashSetArchive
+  | "SegmentRequest" => k cSegmentRequest
+  | "RangeProofSegmentResponse" => k cRangeProofSegmentResponse
+  | "KernelSegmentResponse" => k cKernelSegmentResponse
+  | "OutputSegmentResponse" => k cOutputSegmentResponse
+  | "OutputBitmapSegmentResponse" => k cOutputBitmapSegmentResponse
+  | "Headers" => k cHeaders
+  | "MsgHeaderA" => k (cMsgHeader (netOf "A"))
+  | "MsgHeaderM" => k (cMsgHeader (netOf "M"))
   | _ => none
 
 def showPrim {α : Type} (sh : α → String) (bs : Bytes) : Except SerErr (α × Bytes) → String
@@ -302,7 +484,18 @@ def constVal : String → Option String
   | "max_block_weight_M" => some (toString GV.Gen.MAX_BLOCK_WEIGHT)
   | "proofsize_A" => some (toString GV.Gen.AUTOMATED_TESTING_PROOF_SIZE)
   | "proofsize_M" => some (toString GV.Gen.PROOFSIZE)
+  | "max_segment_read_items" => some (toString MAX_SEGMENT_READ_ITEMS)
+  | "max_peer_addrs" => some (toString GV.Gen.MAX_PEER_ADDRS)
+  | "max_locators" => some (toString GV.Gen.MAX_LOCATORS)
+  | "capabilities_all" => some (toString GV.Gen.Msg.CAPABILITIES_ALL)
+  | "msg_header_len" => some (toString GV.Gen.Msg.MSG_HEADER_LEN)
   | _ => none
+
+def runHdr (chain : String) (bs : Bytes) : String :=
+  match decMsgHeader (netOf chain) bs with
+  | .error e => "err " ++ e.name
+  | .ok (.known t len, r) => s!"known {t} {len} {bs.length - r.length}"
+  | .ok (.unknown len t, r) => s!"unknown {t} {len} {bs.length - r.length}"
 
 def ofOpt (impl : String) : Option String → Verdict
   | some m => cmpModel m impl
@@ -319,6 +512,8 @@ def handle (st : St) (args : List String) (impl : String) : St × Verdict :=
       let c ← mkCfg v (nrd == "1") chain
       let bs ← parseHex hex
       withCodec ty fun cd => some (runDec cd c bs)))
+  | ["hdr", chain, hex] =>
+    (st, ofOpt impl ((parseHex hex).map fun bs => runHdr chain bs))
   | "enc" :: ty :: ver :: chain :: toks =>
     (st, ofOpt impl (do
       let v ← ver.toNat?
